@@ -575,6 +575,32 @@ def gen_notecontainer(repo):
     out.append("end Mingus.Gen.NoteContainer")
     return "\n".join(out) + "\n"
 
+# ---------------------------------------------------------------- containers.bar / track
+def gen_bar(repo):
+    t = parse(repo, "mingus/containers/bar.py")
+    c = cls(t, "Bar")
+    def stmts(mname):
+        return [ast.unparse(x) for x in body_wo_doc(method(c, mname))]
+    place = method(c, "place_notes")
+    conds = [ast.unparse(n.test) for n in ast.walk(place) if isinstance(n, ast.If) and "current_beat" in ast.unparse(n.test)]
+    accept_body = [ast.unparse(x) for n in ast.walk(place) if isinstance(n, ast.If) and "current_beat" in ast.unparse(n.test) for x in n.body]
+    milli = None
+    for n in ast.walk(method(c, "is_full")):
+        if isinstance(n, ast.Constant) and isinstance(n.value, float) and n.value != 0.0:
+            milli = n.value
+    if milli is None:
+        raise Shape("is_full: tolerance constant not found")
+    out = ["namespace Mingus.Gen.Bar"]
+    out.append("def acceptCondition : List (List Char) := " + llist(lstr(x) for x in conds))
+    out.append("def acceptBody : List (List Char) := " + llist(lstr(x) for x in accept_body))
+    out.append("def isFullTolerance : Rat := " + lrat(milli))
+    out.append("def isFullSource : List (List Char) := " + llist(lstr(x) for x in stmts("is_full")))
+    out.append("def setMeterSource : List (List Char) := " + llist(lstr(x) for x in stmts("set_meter")[:1]))
+    out.append("def removeLastSource : List (List Char) := " + llist(lstr(x) for x in stmts("remove_last_entry")))
+    out.append("def spaceLeftSource : List (List Char) := " + llist(lstr(x) for x in stmts("space_left")))
+    out.append("end Mingus.Gen.Bar")
+    return "\n".join(out) + "\n"
+
 GENERATORS = {
     "Notes": gen_notes,
     "Keys": gen_keys,
@@ -585,6 +611,7 @@ GENERATORS = {
     "Value": gen_value,
     "Note": gen_note,
     "NoteContainer": gen_notecontainer,
+    "Bar": gen_bar,
 }
 
 def main():
